@@ -55,29 +55,20 @@ func ruleTokenErr(c *eng.Ctx) {
 		op, x, y, ok := f.Cmp()
 		return ok && op == token.NEQ && ((x == errv && eng.IsNilConst(y)) || (y == errv && eng.IsNilConst(x)))
 	}
-	// every return on the error edge is preceded (same path) by a store peekToken = &Token{Type: TokenEOF}
-	eofStore := func(b *ssa.BasicBlock) bool {
-		for _, in := range b.Instrs {
-			st, ok := in.(*ssa.Store)
-			if !ok {
-				continue
-			}
-			fr, ok := eng.AsField(st.Addr)
-			if !ok || fr.Field != "peekToken" {
-				continue
-			}
-			al, ok := st.Val.(*ssa.Alloc)
-			if !ok {
-				continue
-			}
-			for _, r := range *al.Referrers() {
-				if fa, ok := r.(*ssa.FieldAddr); ok {
-					if f2, ok := eng.AsField(fa); ok && f2.Field == "Type" {
-						for _, rr := range *fa.Referrers() {
-							if s2, ok := rr.(*ssa.Store); ok {
-								if k, isC := eng.ConstInt(s2.Val); isC && k == eofVal {
-									return true
-								}
+	// on the error edge the lookahead becomes a token of type TokenEOF: a store peekToken = &Token{Type: TokenEOF} on
+	// that edge, or (single-exit form) one store after the join whose value on the error edge is that token
+	isEOFToken := func(v ssa.Value) bool {
+		al, ok := v.(*ssa.Alloc)
+		if !ok {
+			return false
+		}
+		for _, r := range *al.Referrers() {
+			if fa, ok := r.(*ssa.FieldAddr); ok {
+				if f2, ok := eng.AsField(fa); ok && f2.Field == "Type" {
+					for _, rr := range *fa.Referrers() {
+						if s2, ok := rr.(*ssa.Store); ok {
+							if k, isC := eng.ConstInt(s2.Val); isC && k == eofVal {
+								return true
 							}
 						}
 					}
@@ -86,22 +77,66 @@ func ruleTokenErr(c *eng.Ctx) {
 		}
 		return false
 	}
-	okEOF := false
+	onErr := eng.MustCross(fn, func(e eng.Edge) bool { return eng.AnyEdgeFact(e, errEdge) }, nil)
+	var covering []*ssa.BasicBlock
+	eng.Instrs(fn, false, func(in ssa.Instruction) {
+		st, ok := in.(*ssa.Store)
+		if !ok {
+			return
+		}
+		fr, ok := eng.AsField(st.Addr)
+		if !ok || fr.Field != "peekToken" {
+			return
+		}
+		if onErr[st.Block()] && isEOFToken(st.Val) {
+			covering = append(covering, st.Block())
+			return
+		}
+		if ph, ok := st.Val.(*ssa.Phi); ok {
+			any, all := false, true
+			for i, e := range ph.Edges {
+				pred := ph.Block().Preds[i]
+				isErr := onErr[pred]
+				for si, sx := range pred.Succs {
+					if sx == ph.Block() && eng.AnyEdgeFact(eng.Edge{From: pred, Succ: si}, errEdge) {
+						isErr = true
+					}
+				}
+				if isErr {
+					any = true
+					if !isEOFToken(e) {
+						all = false
+					}
+				}
+			}
+			if any && all {
+				covering = append(covering, st.Block())
+			}
+		}
+	})
+	var errStarts []*ssa.BasicBlock
+	for _, b := range fn.Blocks {
+		if onErr[b] {
+			errStarts = append(errStarts, b)
+		}
+	}
+	fromErr := eng.ReachableBlocks(errStarts, nil)
+	for _, b := range errStarts {
+		fromErr[b] = true
+	}
+	okEOF := len(covering) > 0 && len(errStarts) > 0
 	for _, r := range eng.Returns(fn) {
-		if !eng.GuardedBy(fn, r.Block(), errEdge) {
+		if !fromErr[r.Block()] {
 			continue
 		}
-		// the return block or a dominating block on the error edge stores EOF
 		found := false
-		for b := r.Block(); b != nil; b = b.Idom() {
-			if eofStore(b) && eng.GuardedBy(fn, b, errEdge) {
+		for _, sb := range covering {
+			if sb == r.Block() || sb.Dominates(r.Block()) {
 				found = true
 			}
 		}
-		okEOF = found
 		if !found {
 			okEOF = false
-			break
 		}
 	}
 	if okEOF {
